@@ -242,3 +242,8 @@ def replay(case, ctx):
         run_unit(ctx, c)
     else:
         run_herd(ctx, c)
+
+
+# coverage-guided tier (vlib/fuzz.py): the single-species feeding step, branch coverage of animal_populations.py as guidance
+FUZZ_IMPORTS = ["src.food_system.animal_populations", "src.food_system.food", "src.food_system.unit_conversions"]
+FUZZ_TARGETS = {"unit": (lambda ctx: (unit_case(), lambda c: run_unit(ctx, c)), 4000, 200000, 2)}
